@@ -72,6 +72,7 @@ def make_case(case, seed, thorough):
         spec.hs_secrets = k % 7 != 0
         spec.ccs13 = k % 4 != 1
         spec.cert_trap = k % 3 == 1
+        spec.shuffle_exts = k % 2 == 0
         spec.server_ext = k % 6 != 1
         segkind = ["mss", "random", "whole", "records"][k % 4]
         cl = {"pattern": "matrix", "nrec": len(spec.app)}
@@ -98,7 +99,7 @@ def make_case(case, seed, thorough):
         segs = tcpcap.interleave_app(segs, conn.events, rng)        # full-duplex application phase
         segkind += "+duplex"
     fl = scene.tls_flow(conn, ep, segs)
-    items = scene.stamp(scene.merge([fl], rng, "concat"), rng, rng.choice(scene.TS_STYLES))
+    items = scene.stamp(scene.merge([fl], rng, "concat"), rng, rng.choice(scene.TS_STYLES + ["coarse"]))
     extra = []
     mapargs = None
     if sport not in (443, 44330):
